@@ -76,6 +76,7 @@ type world struct {
 	nextPeerQ int                   // next question id the reflecting peer uses
 	reflected map[int]int           // peer question id (reflected call) -> the Conn's question id it came from
 	holds     []*hold               // outgoing messages to be held inside transport.send (script actions hold-send / release-send)
+	cancels   map[int]context.CancelFunc // local calls made with a cancellable context (l-call kind "cancellable"), by tag
 	queueSize int                   // server.Policy.AnswerQueueSize of the capabilities of this script (script action "policy")
 	paramExp  map[int]int           // call tag -> export id the Conn assigned to the capability in the call's parameters
 	reflect   bool                  // the script is an embargo scenario: the peer keeps an inbox and reflects
@@ -731,7 +732,7 @@ func (w *world) waitStarted(tag int) bool {
 func runScript(id string, script []action) (trace []J, hang string) {
 	w := &world{toConn: make(chan *capnp.Message, 64), returns: map[int]J{}, qkind: map[int]string{},
 		cmds: map[int]chan string{}, started: map[int]chan struct{}{}, handles: map[string]*capnp.Client{}, tagCap: map[int]int{}, sentQ: map[int]bool{}, finQ: map[int]bool{}, lastEvent: time.Now(),
-		answers: map[int]*capnp.Answer{}, nextPeerQ: 20, reflected: map[int]int{}, recvTag: map[int]bool{}, onCancel: map[int]string{}, paramExp: map[int]int{}, queueSize: 16}
+		answers: map[int]*capnp.Answer{}, nextPeerQ: 20, reflected: map[int]int{}, recvTag: map[int]bool{}, onCancel: map[int]string{}, paramExp: map[int]int{}, queueSize: 16, cancels: map[int]context.CancelFunc{}}
 	w.log(J{"ev": "reset", "h": id})
 	for _, a := range script {
 		if a.A == "fault" {
@@ -807,7 +808,19 @@ func runScript(id string, script []action) (trace []J, hang string) {
 		if len(kr) > 0 {
 			w.settleFor(10 * time.Millisecond)
 		}
-		w.log(J{"ev": "quiesce"})
+		w.log(J{"ev": "quiesce"})      // obligations about calls and returns (C06)
+		w.log(J{"ev": "quiesce-refs"}) // obligations about references (C07)
+		if closed {
+			// the script closed the connection itself: the application still drops its own references
+			w.mu.Lock()
+			hs := w.handles
+			w.handles = map[string]*capnp.Client{}
+			w.mu.Unlock()
+			for h, c := range hs {
+				w.log(J{"ev": "l-release", "h": h})
+				c.Release()
+			}
+		}
 		if !closed {
 			w.mu.Lock()
 			hs := w.handles
@@ -1082,9 +1095,14 @@ func (w *world) step(a action, closed *bool) {
 			return
 		}
 		w.wg.Add(1)
+		ctx, cancel := context.WithTimeout(context.Background(), 3*time.Second)
+		if a.Kind == "cancellable" {
+			w.mu.Lock()
+			w.cancels[tag] = cancel
+			w.mu.Unlock()
+		}
 		go func() {
 			defer w.wg.Done()
-			ctx, cancel := context.WithTimeout(context.Background(), 3*time.Second)
 			defer cancel()
 			ans, rel := c.SendCall(ctx, capnp.Send{Method: meth, ArgsSize: capnp.ObjectSize{DataSize: 8, PointerCount: 1}, PlaceArgs: place})
 			if pc != nil && !placed {
@@ -1094,7 +1112,7 @@ func (w *world) step(a action, closed *bool) {
 			e := J{"ev": "l-result", "tag": tag}
 			if err != nil {
 				e["kind"] = "err"
-				if ctx.Err() != nil {
+				if ctx.Err() == context.DeadlineExceeded {
 					e["kind"] = "timeout"
 				}
 			} else {
@@ -1162,6 +1180,14 @@ func (w *world) step(a action, closed *bool) {
 		w.deliver(msg, J{"m": "release", "e": exp, "n": a.K})
 	case "p-pump":
 		w.pump(a)
+	case "l-cancel":
+		w.mu.Lock()
+		cf := w.cancels[a.Tag]
+		w.mu.Unlock()
+		if cf != nil {
+			w.log(J{"ev": "l-cancel", "tag": a.Tag})
+			cf()
+		}
 	case "hold-send":
 		w.mu.Lock()
 		w.holds = append(w.holds, &hold{m: a.Kind, q: a.Q, release: make(chan struct{})})
